@@ -524,7 +524,6 @@ package parser
 //@   ensures @notfound: nf(result1) ==> cur(p.pos, len(p.tokens)) == old(cur(p.pos, len(p.tokens))) && len(result0) == 0
 //@   ensures @wf: result1 == nil ==> len(result0) >= 1 && exprsOK(p.source, result0, len(result0))
 //@   ensures @progress: result1 == nil ==> old(cur(p.pos, len(p.tokens))) < cur(p.pos, len(p.tokens))
-//@   ensures @ok.restore: nf(err) ==> p.pos == restorePos
 //@   ensures @count: result1 == nil ==> within(cur(p.pos, len(p.tokens)) - old(cur(p.pos, len(p.tokens))), ntokL(result0, len(result0)) + len(result0) - 1, slackL(result0, len(result0)))
 //@   assigns p.pos
 //@   decreases remTok(p.pos, len(p.tokens)), 7
@@ -770,6 +769,7 @@ package parser
 //@ func parser.Parse
 //@   use perr exprwf exprok pwf yield
 //@   hide expr lex
+//@   function parseOf
 //@   ensures @wf: result1 == nil ==> stmtsWF(query, result0, len(result0))
 //@   ensures @shape: result1 == nil ==> shapeOKList(result0, len(result0))
 //@   ensures @count: result1 == nil ==> within(len(scanOf(query)), ntokL(result0, len(result0)) + nsemiT(scanOf(query), len(scanOf(query))), slackL(result0, len(result0)))
